@@ -352,7 +352,22 @@ class AttributeSet(TypedExpression):
                 return apply_trailing_trivia(set_str, self.after, indent=indent)
             return self.add_trivia(f"{prefix}{{ }}", indent=indent, inline=inline)
 
-        if self.multiline:
+        multiline = self.multiline
+        if not multiline:
+            render_values = self.attrpath_order if self.attrpath_order else self.values
+            inline_bindings = _render_bindings(
+                render_values, indent=indented, inline=True
+            )
+            if not any("\n" in item for item in inline_bindings):
+                bindings_str = " ".join(inline_bindings)
+                return self.add_trivia(
+                    f"{prefix}{{ {bindings_str} }}", indent=indent, inline=inline
+                )
+            # A binding that renders on several lines cannot stay in an inline
+            # set: expand it now instead of on the next round trip.
+            multiline = True
+
+        if multiline:
             before_str = format_trivia(self.before, indent=indent)
             render_values = self.attrpath_order if self.attrpath_order else self.values
             bindings_str = "\n".join(
@@ -370,14 +385,7 @@ class AttributeSet(TypedExpression):
                 + "}"
             )
             return apply_trailing_trivia(set_str, self.after, indent=indent)
-        else:
-            render_values = self.attrpath_order if self.attrpath_order else self.values
-            bindings_str = " ".join(
-                _render_bindings(render_values, indent=indented, inline=True)
-            )
-            return self.add_trivia(
-                f"{prefix}{{ {bindings_str} }}", indent=indent, inline=inline
-            )
+        raise AssertionError("unreachable")  # pragma: no cover
 
     def __getitem__(self, key: str):
         """Allow dict-style access for manipulating bindings by name."""
